@@ -25,6 +25,24 @@ type vpSource struct {
 	meta    *headerMetadata
 	headers []Header
 	uri     string
+	onGet   func()
+}
+
+// vpCtx: a context the harness cancels at a chosen moment.
+type vpCtx struct {
+	done chan struct{}
+	err  error
+}
+
+func (c *vpCtx) Deadline() (time.Time, bool)       { return time.Time{}, false }
+func (c *vpCtx) Done() <-chan struct{}             { return c.done }
+func (c *vpCtx) Err() error                        { return c.err }
+func (c *vpCtx) Value(key interface{}) interface{} { return nil }
+func (c *vpCtx) cancel() {
+	if c.err == nil {
+		c.err = context.Canceled
+		close(c.done)
+	}
 }
 
 func (s *vpSource) Open() error  { return nil }
@@ -36,6 +54,9 @@ func (s *vpSource) Iterator(start, end uint32, batchSize uint32) HeaderIterator 
 	return &importSourceHeaderIterator{source: s, startIndex: start, endIndex: end, batchSize: batchSize}
 }
 func (s *vpSource) GetHeader(index uint32) (Header, error) {
+	if s.onGet != nil {
+		s.onGet()
+	}
 	if int(index) >= len(s.headers) {
 		return nil, errors.New("vp: header index out of bounds")
 	}
@@ -195,7 +216,26 @@ func VerifH_C14_import() {
 		}
 	}
 	bs.onMutate, fs.onMutate = watch, watch
-	_, err := imp.Import(context.Background())
+	// the caller's context may be cancelled before the import starts or at
+	// any read of the import files (0 = never)
+	ctx := &vpCtx{done: make(chan struct{})}
+	if cancelAt := vpRange("cancelAtRead", 0, vpParam("cancels", 0)); cancelAt > 0 {
+		reads := 0
+		tick := func() {
+			reads++
+			if reads == cancelAt-1 {
+				ctx.cancel()
+				vpReach("context-cancelled-during-the-import")
+			}
+		}
+		blkSrc.onGet, fltSrc.onGet = tick, tick
+		if cancelAt == 1 {
+			ctx.cancel()
+			vpReach("context-cancelled-before-the-import")
+		}
+	}
+	_, err := imp.Import(ctx)
+	blkSrc.onGet, fltSrc.onGet = nil, nil
 	bs.onMutate, fs.onMutate = nil, nil
 	vpAssert(!aheadAtSomeInstant, "filter-store-never-grows-ahead-of-block-store-at-any-instant")
 	ctl.failAt = 0
